@@ -5,6 +5,7 @@ PROP = dict(
     prop_targets=["Properties/C02.vo"],
     cases=dict(quick=3500, thorough=40000),
     level="proof",
+    release_quick=3,
     rule="7 entry points in rotation (VnBest, VnFirst, KMeans 2D/3D, FiducciaMattheyses, KernighanLin, ArcSwap) x valid initial "
          "partitions with 1..8 parts (two-way algorithms: 1..2; one-sided and unbalanced included) x 6 weight families x 8 point "
          "families x 6 graph families (random, grid, path, star, disconnected, cycle) x parameter choices (pass/move limits incl. "
